@@ -71,6 +71,9 @@ type vfThrCfg struct {
 	// Prior: throttlers built from the very same configuration object before the one under test, as the daemon
 	// does on every camera connection
 	Prior int `json:"prior,omitempty"`
+	// RealCtor: built with NewThrottledRecorder, the constructor the daemon uses (wall clock); only with a
+	// min-refill of two hours and no clock advance in the schedule, so that no token can arrive during the run
+	RealCtor bool `json:"real_ctor,omitempty"`
 }
 
 // throttler builds the throttler under test the way the daemon does on its (Prior+1)-th camera connection.
@@ -78,6 +81,9 @@ func (c vfThrCfg) throttler(base recorder.Recorder, ev ThrottledEventListener, c
 	conf := c.conf()
 	for i := 0; i < c.Prior; i++ {
 		NewThrottledRecorderWithClock(vfNoRecorder{}, conf, c.MinPrev, nil, clock, cam)
+	}
+	if c.RealCtor {
+		return NewThrottledRecorder(base, conf, c.MinPrev, ev, cam)
 	}
 	return NewThrottledRecorderWithClock(base, conf, c.MinPrev, ev, clock, cam)
 }
@@ -667,6 +673,19 @@ func TestVF_C05_Composed(t *testing.T) {
 
 func vfGenC06(t *rapid.T) vfThrCase {
 	c := vfThrCase{Cfg: vfGenThrCfg(t), Sessions: true}
+	if rapid.IntRange(0, 9).Draw(t, "realctor") == 0 {
+		// the constructor the daemon uses (wall clock): two hours of min-refill, so the bucket cannot gain a token
+		// while the schedule runs, and no clock advance in the schedule
+		c.Cfg.RealCtor, c.Cfg.ViaFile, c.Cfg.Prior = true, false, 0
+		c.Cfg.MinRefillMs = 7200000
+		c.Cfg.MinPrev = rapid.IntRange(1, 2).Draw(t, "minprevreal")
+		for _, o := range vfGenThrOps(t, c.Cfg, true) {
+			if o.K != vfAdv && o.K != vfEdge {
+				c.Ops = append(c.Ops, o)
+			}
+		}
+		return c
+	}
 	if rapid.IntRange(0, 3).Draw(t, "frozen") == 0 {
 		// frozen clock: no advance at all
 		ops := vfGenThrOps(t, c.Cfg, true)
